@@ -162,7 +162,11 @@ enum Stmt {
     MergeNode(Vec<(Vec<u8>, Vec<(u8, Val)>, Vec<(u8, Val)>, Vec<(u8, Val)>)>),
     SetRelProp(Vec<(RKey, u8, Val)>),
     MergeRel(Vec<(RKey, Vec<(u8, Val)>, Vec<(u8, Val)>, Vec<(u8, Val)>)>),
+    SetRelMap(Vec<(RKey, bool, Vec<(u8, Val)>)>),
+    RemoveRelProp(Vec<(RKey, u8)>),
+    Chain(Vec<Stmt>),
 }
+fn ckey(k: &RKey) -> String { format!("({}, {}, {})", cn(k.0 as u128), cn(k.1 as u128), cn(k.2 as u128)) }
 fn cn(x: u128) -> String { coq_n(x) }
 fn ckv(v: &[(u8, Val)]) -> String { coq_list(v, |(k, x)| format!("({}, {})", cn(*k as u128), x.coq())) }
 fn cls(v: &[u8]) -> String { coq_list(v, |l| cn(*l as u128)) }
@@ -181,6 +185,9 @@ impl Stmt {
             Stmt::MergeNode(r) => format!("UMergeNode {}", coq_list(r, |(l, p, oc, om)| format!("({}, {}, {}, {})", cls(l), ckv(p), ckv(oc), ckv(om)))),
             Stmt::SetRelProp(r) => format!("USetRelProp {}", coq_list(r, |((s, t, d), k, v)| format!("(({}, {}, {}), {}, {})", cn(*s as u128), cn(*t as u128), cn(*d as u128), cn(*k as u128), v.coq()))),
             Stmt::MergeRel(r) => format!("UMergeRel {}", coq_list(r, |((s, t, d), p, oc, om)| format!("(({}, {}, {}), {}, {}, {})", cn(*s as u128), cn(*t as u128), cn(*d as u128), ckv(p), ckv(oc), ckv(om)))),
+            Stmt::SetRelMap(r) => format!("USetRelMap {}", coq_list(r, |(k, a, m)| format!("({}, {}, {})", ckey(k), coq_bool(*a), ckv(m)))),
+            Stmt::RemoveRelProp(r) => format!("URemoveRelProp {}", coq_list(r, |(k, p)| format!("({}, {})", ckey(k), cn(*p as u128)))),
+            Stmt::Chain(cs) => format!("UChain {}", coq_list(cs, |c| format!("({})", c.coq()))),
         }
     }
     fn kind(&self) -> &'static str {
@@ -190,6 +197,7 @@ impl Stmt {
             Stmt::RemoveLabels(_) => "remove-labels", Stmt::Delete(true, _) => "detach-delete", Stmt::Delete(false, _) => "delete",
             Stmt::DeleteRel(_) => "delete-rel", Stmt::MergeNode(_) => "merge-node",
             Stmt::SetRelProp(_) => "set-rel-prop", Stmt::MergeRel(_) => "merge-rel",
+            Stmt::SetRelMap(_) => "set-rel-map", Stmt::RemoveRelProp(_) => "remove-rel-prop", Stmt::Chain(_) => "chain",
         }
     }
 }
@@ -265,17 +273,38 @@ impl Ref {
                 if let Some(e) = self.rels.get_mut(key) { pset(&mut e.1, *k, v); }
                 if *v != Val::Null || existed { c += 1; }
             },
-            Stmt::MergeRel(rows) => for (key, ps, oc, om) in rows {
-                let matched = self.rels.get(key).map(|e| ps.iter().all(|(k, v)| e.1.get(k).map(|w| pv_eq(w, v)).unwrap_or(false))).unwrap_or(false);
-                let e = self.rels.entry(*key).or_insert((0, Props::new()));
-                if matched {
-                    for (k, v) in om { pset(&mut e.1, *k, v); }
-                } else {
-                    e.0 += 1;
-                    for (k, v) in ps { e.1.insert(*k, v.clone()); } // stored as given, nulls included
-                    for (k, v) in oc { pset(&mut e.1, *k, v); }
-                    c += 1;
+            Stmt::MergeRel(rows) => {
+                // overlay: relationships created by earlier rows of this statement, each with its pattern map
+                let mut overlay: Vec<(RKey, Props)> = vec![];
+                let m = |have: &Props, ps: &Vec<(u8, Val)>| ps.iter().all(|(k, v)| have.get(k).map(|w| pv_eq(w, v)).unwrap_or(false));
+                for (key, ps, oc, om) in rows {
+                    let matched = pre.rels.get(key).map(|e| m(&e.1, ps)).unwrap_or(false) || overlay.iter().any(|(k, p)| k == key && m(p, ps));
+                    let e = self.rels.entry(*key).or_insert((0, Props::new()));
+                    if matched {
+                        for (k, v) in om { pset(&mut e.1, *k, v); }
+                    } else {
+                        e.0 += 1;
+                        for (k, v) in ps { e.1.insert(*k, v.clone()); } // stored as given, nulls included
+                        for (k, v) in oc { pset(&mut e.1, *k, v); }
+                        overlay.push((*key, ps.iter().cloned().collect()));
+                        c += 1;
+                    }
                 }
+            }
+            Stmt::SetRelMap(rows) => for (key, append, m) in rows {
+                let existing = pre.rels.get(key).map(|e| e.1.clone()).unwrap_or_default();
+                let mut target = if *append { existing.clone() } else { Props::new() };
+                for (k, v) in m { pset(&mut target, *k, v); }
+                let Some(e) = self.rels.get_mut(key) else { continue };
+                for k in existing.keys() { if !target.contains_key(k) { e.1.remove(k); c += 1; } }
+                for (k, v) in &target { if !existing.get(k).map(|w| pv_eq(w, v)).unwrap_or(false) { e.1.insert(*k, v.clone()); c += 1; } }
+            },
+            Stmt::RemoveRelProp(rows) => for (key, k) in rows {
+                if pre.rels.get(key).map(|e| e.1.contains_key(k)).unwrap_or(false) { c += 1; }
+                if let Some(e) = self.rels.get_mut(key) { e.1.remove(k); }
+            },
+            Stmt::Chain(cs) => for cl in cs {
+                c += self.exec(cl)?;
             },
         }
         Some(c)
@@ -402,6 +431,39 @@ fn distinct_keys(r: &mut Rng, lo: usize, span: u64, from: &[u8]) -> Vec<u8> {
     ks
 }
 
+/// one SET / REMOVE clause on the node variable `n` over the bound ids (no REMOVE of labels: inside
+/// a chain the catalog the executor consults is still the pre-statement one)
+fn node_clause(r: &mut Rng, ids: &[u32], params: &mut Params, pfx: &str) -> (String, Stmt) {
+    match r.below(4) {
+        0 => {
+            let n = 1 + r.below(2) as usize;
+            let items: Vec<(u8, Val)> = (0..n).map(|_| (r.below(4) as u8, gen_val(r, 3))).collect();
+            let mut parts = vec![];
+            for (j, (k, v)) in items.iter().enumerate() {
+                params.insert(format!("{pfx}s{j}"), v.qv());
+                parts.push(format!("n.{} = ${pfx}s{j}", KEYS[*k as usize]));
+            }
+            (format!("SET {}", parts.join(", ")), Stmt::SetProp(ids.iter().flat_map(|i| items.iter().map(move |(k, v)| (*i, *k, v.clone()))).collect()))
+        }
+        1 => {
+            let ks: Vec<u8> = (0..1 + r.below(2)).map(|_| r.below(4) as u8).collect();
+            (format!("REMOVE {}", ks.iter().map(|k| format!("n.{}", KEYS[*k as usize])).collect::<Vec<_>>().join(", ")),
+             Stmt::RemoveProp(ids.iter().flat_map(|i| ks.iter().map(move |k| (*i, *k))).collect()))
+        }
+        2 => {
+            let append = r.chance(1, 2);
+            let ks = distinct_keys(r, 0, 4, &[0, 1, 2, 3]);
+            let mp: Vec<(u8, Val)> = ks.iter().map(|k| (*k, gen_val(r, 3))).collect();
+            params.insert(format!("{pfx}m"), map_value(&mp));
+            (format!("SET n {} ${pfx}m", if append { "+=" } else { "=" }), Stmt::SetMap(ids.iter().map(|i| (*i, append, mp.clone())).collect()))
+        }
+        _ => {
+            let ls: Vec<u8> = (0..1 + r.below(2)).map(|_| r.below(3) as u8).collect();
+            (format!("SET n{}", labels_text(&ls)), Stmt::SetLabels(ids.iter().map(|i| (*i, ls.clone())).collect()))
+        }
+    }
+}
+
 /// generates one statement: (query text, params, evaluated form); the bound rows are read from the
 /// ENGINE by running the MATCH prefix as a read query first
 fn gen_stmt(r: &mut Rng, db: &Db, rf: &Ref, deleted_keys: &BTreeSet<RKey>) -> Result<Option<(String, Params, Stmt)>, String> {
@@ -430,7 +492,40 @@ fn gen_stmt(r: &mut Rng, db: &Db, rf: &Ref, deleted_keys: &BTreeSet<RKey>) -> Re
         Ok((m, ids))
     };
     let w = r.below(100);
-    let out = if live.len() < 2 || w < 16 {
+    let special = r.below(100);
+    let out = if special < 8 && !live.is_empty() {
+        // a chain of two or three SET / REMOVE clauses in one statement
+        let (m, ids) = selector(r, &mut params)?;
+        let n = 2 + r.below(2) as usize;
+        let mut text = m;
+        let mut cs = vec![];
+        for j in 0..n {
+            let (t, st) = node_clause(r, &ids, &mut params, &format!("c{j}"));
+            text.push(' ');
+            text.push_str(&t);
+            cs.push(st);
+        }
+        (text, Stmt::Chain(cs))
+    } else if special < 13 && !rf.rels.is_empty() {
+        // SET r = map / r += map / REMOVE r.k on relationships: one row per parallel relationship
+        let keys: Vec<RKey> = rf.rels.keys().cloned().collect();
+        let k0 = *r.pick(&keys);
+        params.insert("a", Value::Int(k0.0 as i64));
+        let rows = read_rows(db, &format!("MATCH (a)-[r:{}]->(b) WHERE id(a) = $a RETURN id(a), id(b)", TYPES[k0.1 as usize]), &params)?;
+        let ks: Vec<RKey> = rows.iter().filter_map(|row| match (&row[0], &row[1]) { (Value::Int(a), Value::Int(b)) => Some((*a as u32, k0.1, *b as u32)), _ => None }).collect();
+        let head = format!("MATCH (a)-[r:{}]->(b) WHERE id(a) = $a", TYPES[k0.1 as usize]);
+        if r.chance(1, 3) {
+            let ps: Vec<u8> = (0..1 + r.below(2)).map(|_| r.below(4) as u8).collect();
+            (format!("{head} REMOVE {}", ps.iter().map(|k| format!("r.{}", KEYS[*k as usize])).collect::<Vec<_>>().join(", ")),
+             Stmt::RemoveRelProp(ks.iter().flat_map(|key| ps.iter().map(move |p| (*key, *p))).collect()))
+        } else {
+            let append = r.chance(1, 2);
+            let pk = distinct_keys(r, 0, 4, &[0, 1, 2, 3]);
+            let mp: Vec<(u8, Val)> = pk.iter().map(|k| (*k, gen_val(r, 3))).collect();
+            params.insert("m", map_value(&mp));
+            (format!("{head} SET r {} $m", if append { "+=" } else { "=" }), Stmt::SetRelMap(ks.iter().map(|key| (*key, append, mp.clone())).collect()))
+        }
+    } else if live.len() < 2 || w < 16 {
         let n = 1 + r.below(3) as usize;
         let ls = distinct_keys(r, 0, 3, &[0, 1, 2]);
         let ks = distinct_keys(r, 1, 3, &[0, 1, 2, 3]);
@@ -541,8 +636,21 @@ fn gen_stmt(r: &mut Rng, db: &Db, rf: &Ref, deleted_keys: &BTreeSet<RKey>) -> Re
         let mut tail = String::new();
         if let Some((k, v)) = oc.first() { params.insert("oc", v.qv()); tail.push_str(&format!(" ON CREATE SET r.{} = $oc", KEYS[*k as usize])); }
         if let Some((k, v)) = om.first() { params.insert("om", v.qv()); tail.push_str(&format!(" ON MATCH SET r.{} = $om", KEYS[*k as usize])); }
-        let q = format!("MATCH (a), (b) WHERE id(a) = $a AND id(b) = $b MERGE (a)-[r:{} {}]->(b){tail}", TYPES[t as usize], map_text(r, &ps, &mut params, "g"));
-        (q, Stmt::MergeRel(vec![((a, t, b), ps, oc, om)]))
+        if !ks.is_empty() && r.chance(1, 2) {
+            // several rows on one key: later rows see what earlier rows created
+            let n = 2 + r.below(2) as usize;
+            let mut rows: Vec<Vec<(u8, Val)>> = vec![ps.clone()];
+            for _ in 1..n {
+                rows.push(if r.chance(1, 2) { rows[0].clone() } else { ks.iter().map(|k| (*k, gen_val(r, 1))).collect() });
+            }
+            params.insert("rows", Value::List(rows.iter().map(|m| map_value(m)).collect()));
+            let body: Vec<String> = ks.iter().map(|k| format!("{0}: r.{0}", KEYS[*k as usize])).collect();
+            let q = format!("MATCH (a), (b) WHERE id(a) = $a AND id(b) = $b UNWIND $rows AS r MERGE (a)-[x:{} {{{}}}]->(b){}", TYPES[t as usize], body.join(", "), tail.replace(" r.", " x."));
+            (q, Stmt::MergeRel(rows.into_iter().map(|m| ((a, t, b), m, oc.clone(), om.clone())).collect()))
+        } else {
+            let q = format!("MATCH (a), (b) WHERE id(a) = $a AND id(b) = $b MERGE (a)-[r:{} {}]->(b){tail}", TYPES[t as usize], map_text(r, &ps, &mut params, "g"));
+            (q, Stmt::MergeRel(vec![((a, t, b), ps, oc, om)]))
+        }
     } else {
         // MERGE: pattern keys p0/p1, ON CREATE / ON MATCH keys p2/p3 (disjoint: the executor matches
         // later rows against the snapshot plus the nodes created by earlier rows, not against
@@ -601,14 +709,10 @@ fn main() {
             }
         }
         let q2 = "MATCH (n) SET n.p0 = 1 REMOVE n.p0";
+        // regression (fixed in /repo): execute_write used to reject every statement with two update clauses
         if let Err(e) = write_stmt(&db, q2, &Params::new(), false) {
-            if e.contains("must be executed via execute_write") {
-                *hist.entry("known:K-C12-chained".into()).or_insert(0) += 1;
-                rep.fail(0, Some("K-C12-chained"), "execute_write rejects a statement with two update clauses", json!({"query": q2, "error": e}));
-            } else {
-                fails += 1;
-                rep.fail(0, None, &format!("{q2}: {e}"), json!({"query": q2}));
-            }
+            fails += 1;
+            rep.fail(0, None, &format!("execute_write rejects a statement with two update clauses: {q2}: {e}"), json!({"query": q2}));
         }
     }
     for idx in 0..a.n {
@@ -670,6 +774,12 @@ fn main() {
                     let nan = |ps: &Vec<(u8, Val)>| ps.iter().any(|(_, v)| matches!(v, Val::Float(b) if f64::from_bits(*b).is_nan()));
                     let has_nan = match &st { Stmt::MergeNode(rows) => rows.iter().any(|row| nan(&row.1)), Stmt::MergeRel(rows) => rows.iter().any(|row| nan(&row.1)), _ => false };
                     if has_nan && dump_eq(&d, &rf) { class = Some("K-C12-mergenan"); }
+                    // relationships have no identity: rows of one statement that merge DIFFERENT pattern maps on
+                    // one (src,type,dst) overwrite each other's properties, so the first pattern no longer matches
+                    if let Stmt::MergeRel(rows) = &st {
+                        let differing = rows.iter().any(|x| rows.iter().any(|y| x.0 == y.0 && !(x.1.len() == y.1.len() && x.1.iter().zip(y.1.iter()).all(|(p, q)| p.0 == q.0 && pv_eq(&p.1, &q.1)))));
+                        if class.is_none() && differing && dump_eq(&d, &rf) && res.as_ref().ok().cloned() == expect { class = Some("K-C12-relidentity"); }
+                    }
                 }
             }
             // 5. a stored property is never null
